@@ -2,6 +2,7 @@ package funcGen
 
 import (
 	"bytes"
+	"errors"
 	"fmt"
 	"github.com/hneemann/parser2"
 	"github.com/hneemann/parser2/listMap"
@@ -1377,7 +1378,27 @@ func (g *FunctionGenerator[V]) genCodeMap(a listMap.ListMap[parser2.AST], gc Gen
 	return
 }
 
+// staticFunctionDocuError is an error which already carries the list of the available functions
+type staticFunctionDocuError struct {
+	err  error
+	docu string
+}
+
+func (e staticFunctionDocuError) Error() string {
+	return e.err.Error() + "\n\nAvailable functions are:" + e.docu
+}
+
+func (e staticFunctionDocuError) Unwrap() error {
+	return e.err
+}
+
 func (g *FunctionGenerator[V]) generateStaticFunctionDocu(err error) error {
+	// The list is added only once. In nested calls every level passes here, and adding
+	// the list again at each level makes the message grow with the nesting depth.
+	var has staticFunctionDocuError
+	if errors.As(err, &has) {
+		return err
+	}
 	type sf struct {
 		name string
 		f    Function[V]
@@ -1395,7 +1416,7 @@ func (g *FunctionGenerator[V]) generateStaticFunctionDocu(err error) error {
 		b.WriteRune('\n')
 		f.f.Description.WriteTo(&b, f.name)
 	}
-	return fmt.Errorf("%w\n\nAvailable functions are:%s", err, b.String())
+	return staticFunctionDocuError{err: err, docu: b.String()}
 }
 
 func (g *FunctionGenerator[V]) GetStaticDocumentation() TypeDocumentation {
